@@ -12,7 +12,7 @@ from pbt.core import call
 PROP = "C08"
 TECHNIQUE = "Hypothesis-generated forecast pairs and catalogs vs. independent implementation of Rhoades et al. Eq. 17/18 and of the tie-corrected Wilcoxon signed-rank normal approximation (cross-checked with scipy.stats.wilcoxon); metamorphic swap / self-comparison relations; definedness"
 RULE = ("one case = two positive-rate forecasts (rates 1e-8..1e2) on a common generated region x catalog of 2..80 in-region events with "
-        "repeated cells and ties x alpha in (0,1) x scale on/off; run through paired_t_test, w_test, binary_paired_t_test in both orders and "
+        "repeated cells and ties x alpha in (0,1) x scale on/off (half of the cases evaluate the same forecast objects against another catalog of the same size first); run through paired_t_test, w_test, binary_paired_t_test in both orders and "
         "A vs A. Non-trivial = >= 3 distinct log-rate differences and at least one tie; distinct = canonical JSON.")
 ASSUMPTIONS = ["relative tolerance 1e-9 (+1e-12 absolute) on gains, statistics, intervals; p-values 1e-9 absolute",
                "scale=True divides rates and totals by the whole number of days between start and end (365 here)",
